@@ -173,7 +173,7 @@ def bk_setup(ctx):
     subparser = Rec("ArgumentParser(sub)")
     if with_sub:
         ctx.classes.add("_ActionSubCommands", ["Action"])
-        name_map = Rec("dict", methods={"__contains__": lambda c, s_, a, k: has_root, "__getitem__": lambda c, s_, a, k: subparser})
+        name_map = Rec("dict", methods={"__contains__": lambda c, s_, a, k: has_root if a[0] is root else z3.Bool("some-other-string-names-a-subcommand"), "__getitem__": lambda c, s_, a, k: subparser})
         actions.insert(0, Rec("_ActionSubCommands", attrs={"dest": z3.String("subcommands.dest"), "_name_parser_map": name_map}))
     parser = Rec("ArgumentParser", attrs={"_actions": actions})
 
@@ -230,7 +230,7 @@ def po_setup(ctx):
 
     cfg = Rec("Namespace", methods={"get": lambda c, s_, a, k: store.get(a[0]), "__setitem__": lambda c, s_, a, k: store.__setitem__(a[0], a[1])})
     self = Rec("ArgumentParser", attrs={"_logger": Rec("Logger", methods={"debug": lambda c, s_, a, k: None})}, methods={"_check_value_key": check_value_key})
-    calls = {"supports_optionals_as_positionals": lambda c, a, k: supported, "get_optionals_as_positionals_actions": lambda c, a, k: list(actions)}
+    calls = {"supports_optionals_as_positionals": lambda c, a, k: supported, "get_optionals_as_positionals_actions": lambda c, a, k: [x for x in actions if k.get("include_positionals") is True or x.attrs["option_strings"] != []]}
     return Setup(env={"self": self, "cfg": cfg, "unk": list(unk)}, calls=calls, data=dict(unk=unk, kinds=kinds, supported=supported, store=store, cfg=cfg))
 
 
@@ -266,3 +266,129 @@ UNITS += [
     Unit("C06", "jsonargparse._core:ArgumentParser._positional_optionals", po_setup, po_post, po_raises, expect_cover=("return",), max_paths=20000,
          trusted=["_check_value_key(action, token, ...) type-checks the token for that action or raises", "get_optionals_as_positionals_actions lists the candidate actions in declaration order"]),
 ]
+
+
+# ------------------------------------------------------------------------------------------------ _find_action_and_subcommand / _find_parent_action_and_subcommand
+# check_values classifies every key of a configuration with these two: "has an action" (the first declared action whose dest is the key;
+# a whole-group config loader only when nothing else has that dest; below a subcommand: what the subcommand's parser answers for the rest
+# of the key) and "lies below an action" (the action of the longest proper prefix that has one).
+def fa_setup(ctx):
+    layout = [("A", "A"), ("L", "A"), ("A", "L", "A"), ("S", "A"), ("A", "S"), ("L", "S", "L"), ()][ctx.choose(7, "declared-actions")]
+    exclude = [None, "_ActionConfigLoad"][ctx.choose(2, "exclude")]
+    dest = z3.String("dest")
+    ctx.classes.add("_ActionConfigLoad", ["Action"])
+    ctx.classes.add("_ActionSubCommands", ["Action"])
+    root, rest = z3.String("dest.root"), z3.String("dest.rest")
+    ctx.assume(z3.Or(z3.And(root == dest, z3.Not(z3.Contains(dest, z3.StringVal(".")))), z3.And(dest == z3.Concat(root, z3.StringVal("."), rest), z3.Not(z3.Contains(root, z3.StringVal("."))))))
+    actions, info = [], []
+    subparser = Rec("ArgumentParser(sub)")
+    sub_answer = [(Rec("sub-action"), None), (Rec("sub-action"), z3.String("subsub")), (None, None)][ctx.choose(3, "answer-of-the-subcommand's-parser")] if "S" in layout else (None, None)
+    for i, kd in enumerate(layout):
+        d = z3.String(f"action{i}.dest")
+        if kd == "S":
+            in_map, root_in_map = z3.Bool(f"dest-names-a-subcommand{i}"), z3.Bool(f"root-names-a-subcommand{i}")
+            ctx.assume(z3.Implies(z3.And(in_map, z3.Not(z3.Contains(dest, z3.StringVal(".")))), root_in_map))  # root == dest when there is no dot
+            contains = lambda c, s_, a, k, _d=dest, _im=in_map, _rm=root_in_map, _i=i: _im if a[0] is _d else _rm if a[0] is root else z3.Bool(f"some-other-string-names-a-subcommand{_i}")  # noqa: E731
+            a = Rec("_ActionSubCommands", attrs={"dest": d, "_name_parser_map": Rec("dict", methods={"__contains__": contains, "__getitem__": lambda c, s_, a, k: subparser})})
+            info.append(("S", d, in_map, root_in_map))
+        else:
+            a = Rec("_ActionConfigLoad" if kd == "L" else "Action", attrs={"dest": d})
+            info.append((kd, d))
+        actions.append(a)
+    parser = Rec("ArgumentParser", attrs={"_actions": actions})
+
+    def split_root(c, a, k):
+        return [root, rest]
+
+    def recursive(c, a, k):
+        c.event("recurse", a[0], a[1], k.get("exclude"))
+        return sub_answer
+
+    consts = {"_ActionConfigLoad": ClassRef("_ActionConfigLoad"), "_ActionSubCommands": ClassRef("_ActionSubCommands")}
+    calls = {"filter_default_actions": lambda c, a, k: list(a[0]), "split_key_root": split_root, "_find_action_and_subcommand": recursive}
+    ex = ClassRef(exclude) if exclude else None
+    return Setup(env={"parser": parser, "dest": dest, "exclude": ex}, calls=calls, consts=consts,
+                 data=dict(layout=layout, exclude=exclude, dest=dest, actions=actions, info=info, sub_answer=sub_answer, subparser=subparser, root=root, rest=rest, ex=ex))
+
+
+def fa_post(ctx, st, result):
+    d = st.data
+    tag = f"[{''.join(d['layout']) or 'none'}{',exclude loaders' if d['exclude'] else ''}]"
+    ok_shape = isinstance(result, tuple) and len(result) == 2
+    ctx.oblige("post", "returns-(action or None, subcommand or None)" + tag, ok_shape)
+    if not ok_shape:
+        return
+    dest = d["dest"]
+    undecided_yet = z3.BoolVal(True)  # no earlier action has answered
+    fallback_conds = []  # (condition, action) for loaders with that dest, later ones win
+    cases = []  # (condition, predicate on result)
+    for a, inf in zip(d["actions"], d["info"]):
+        kd = inf[0]
+        if d["exclude"] and kd == "L":
+            continue
+        same = inf[1] == dest
+        if kd == "A":
+            cases.append((z3.And(undecided_yet, same), result[0] is a and result[1] is None))
+            undecided_yet = z3.And(undecided_yet, z3.Not(same))
+        elif kd == "L":
+            fallback_conds.append((z3.And(undecided_yet, same), a))
+        else:
+            in_map, root_in_map = inf[2], inf[3]
+            cases.append((z3.And(undecided_yet, z3.Or(same, in_map)), result[0] is a and result[1] is None))
+            below = z3.And(undecided_yet, z3.Not(same), z3.Not(in_map), root_in_map)
+            sub_a, sub_sc = d["sub_answer"]
+            if sub_sc is None:
+                cases.append((below, result[0] is sub_a and (result[1] is d["root"] or (is_z3(result[1]) and result[1].eq(d["root"])))))
+            else:
+                cases.append((below, result[0] is sub_a and is_z3(result[1])))
+                if is_z3(result[1]):
+                    cases.append((below, result[1] == z3.Concat(d["root"], z3.StringVal("."), sub_sc)))
+            rec = [e for e in ctx.events if e[0] == "recurse"]
+            cases.append((below, len(rec) == 1 and rec[0][1] is d["subparser"] and rec[0][2] is d["rest"] and rec[0][3] is d["ex"]))
+            undecided_yet = z3.And(undecided_yet, z3.Not(same), z3.Not(in_map), z3.Not(root_in_map))
+    # nothing answered: the last loader with that dest (if any), else nothing
+    for i, (cond, a) in enumerate(fallback_conds):
+        later = [c2 for c2, _ in fallback_conds[i + 1:]]
+        cases.append((z3.And(undecided_yet, cond, *[z3.Not(c2) for c2 in later]), result[0] is a and result[1] is None))
+    cases.append((z3.And(undecided_yet, *[z3.Not(c) for c, _ in fallback_conds]), result[0] is None and result[1] is None))
+    goal = z3.And(*[z3.Implies(c, g if is_z3(g) else z3.BoolVal(bool(g))) for c, g in cases])
+    ctx.oblige("post", "the-first-declared-action-with-that-dest(a subcommands action also for its subcommand names;below a subcommand the answer of its parser for the rest of the key,prefixed);a-config-loader-only-as-fallback;else-None" + tag,
+               goal, strings=True)
+
+
+def fa_raises(ctx, st, exc):
+    ctx.oblige("raises", f"no-own-exception(got {exc.cls}@{exc.origin})", False)
+
+
+UNITS.append(Unit("C06", "jsonargparse._actions:_find_action_and_subcommand", fa_setup, fa_post, fa_raises, max_paths=20000,
+                  trusted=["split_key_root(dest) == dest.split('.', 1) (hypothesis on root/rest)", "the recursive call by contract", "filter_default_actions drops the help action only"]))
+
+
+def fpa_setup(ctx):
+    key = ["a", "a.b", "a.b.c", "x.y"][ctx.choose(4, "key")]
+    known = [(), ("a",), ("a.b",), ("a", "a.b"), ("a.b.c",), ("x",)][ctx.choose(6, "keys-that-have-an-action")]
+    acts = {k: Rec("Action", attrs={"dest": k}) for k in known}
+    sc = z3.String("subcommand")
+    exclude = Rec("exclude")
+
+    def find(c, a, k):
+        c.event("find", a[1], k.get("exclude"))
+        return (acts[a[1]], sc) if a[1] in acts else (None, None)
+
+    return Setup(env={"parser": Rec("ArgumentParser"), "key": key, "exclude": exclude}, calls={"_find_action_and_subcommand": find}, inline={"split_key": "jsonargparse._namespace:split_key"},
+                 data=dict(key=key, known=known, acts=acts, sc=sc, exclude=exclude))
+
+
+def fpa_post(ctx, st, result):
+    d = st.data
+    tag = f"[{d['key']!r},known:{list(d['known'])}]"
+    parts = d["key"].split(".")
+    prefixes = [".".join(parts[:n]) for n in range(len(parts), 0, -1)]  # the key itself, then longest proper prefix first
+    hit = next((p for p in prefixes if p in d["acts"]), None)
+    ok = isinstance(result, tuple) and len(result) == 2 and (result[0] is d["acts"][hit] and result[1] is d["sc"] if hit else result[0] is None and result[1] is None)
+    ctx.oblige("post", "the-action-of-the-key-itself,else-of-its-longest-proper-prefix-that-has-one,else-None" + tag, ok)
+    ctx.oblige("post", "every-lookup-passes-the-caller's-exclude" + tag, all(e[2] is d["exclude"] for e in ctx.events if e[0] == "find"))
+
+
+UNITS.append(Unit("C06", "jsonargparse._actions:_find_parent_action_and_subcommand", fpa_setup, fpa_post, fa_raises,
+                  trusted=["_find_action_and_subcommand by contract (its own unit)"]))
